@@ -119,6 +119,33 @@ def trees_rule1(depth, t, memo=None):
     return out
 
 
+def trees_spine(depth, t, memo=None):
+    """spines: one arbitrary child per compound, every sibling is the first leaf of its type"""
+    memo = memo if memo is not None else {}
+    key = (depth, t)
+    if key in memo:
+        return memo[key]
+    out = list(leaves_of(t))
+    if depth > 0:
+        for op in ALL_OPS:
+            cts = child_types(op)
+            if ty((op,)) != t:
+                continue
+            for pos in range(len(cts)):
+                if cts[pos] == "O":
+                    continue
+                for sub in trees_spine(depth - 1, cts[pos], memo):
+                    if len(sub) == 1:
+                        continue
+                    ch = [leaves_of(c)[0] for c in cts]
+                    ch[pos] = sub
+                    out.append((op,) + tuple(ch))
+            if depth == 1:
+                out.append((op,) + tuple(leaves_of(c)[0] for c in cts))
+    memo[key] = out
+    return out
+
+
 def tdepth(n):
     if len(n) == 1:
         return 0
@@ -159,13 +186,13 @@ class Builder:
         if k in ("f2", "f3", "f4"):
             return ("call", V(k), ch)
         if k == "m":
-            return ("method", V("obj"), "m", ch)
+            return ("method", V("ko"), "m", ch)
         if k == "sum3":
             return ("call", V("sum3"), [("list", ch)])
         if k == "idx":
             return ("call", V("pick"), [("list", ch[:2]), ch[2]])
         if k == "msum":
-            return ("call", V("msum"), [("maplit", [(ch[0], ch[1]), (ch[2], ch[3])])])
+            return ("call", V("msum"), [("maplit", "int", "int", [(ch[0], ch[1]), (ch[2], ch[3])])])
         raise ValueError(k)
 
 
@@ -173,8 +200,7 @@ def lit(n):
     return ("int", n)
 
 
-def prelude():
-    P = ("print",)
+def prelude(used=None):
     t = ("assign", "t", ("fn", [("i", "int")], "int",
                          [("print", ("bin", "+", ("str", "t "), V("i"))),
                           ("return", ("bin", "+", ("bin", "%", V("i"), lit(3)), lit(1)))]), None, ())
@@ -202,21 +228,30 @@ def prelude():
                                        ("bin", "+", ("bin", "+", ("str", " "), V("c")), ("bin", "+", ("str", " "), V("d"))))),
                             ("return", ("bin", "-", ("bin", "+", V("a"), V("c")), ("bin", "+", V("b"), V("d"))))]), None, ())
     sum3 = ("assign", "sum3", ("fn", [("l", "[int...]")], "int",
-                               [("print", ("bin", "+", ("str", "sum3 "), V("l"))),
+                               [("print", ("str", "sum3")), ("print", V("l")),
                                 ("return", ("bin", "-", ("bin", "+", ("index", V("l"), lit(0)), ("index", V("l"), lit(2))),
                                             ("index", V("l"), lit(1))))]), None, ())
     pick = ("assign", "pick", ("fn", [("l", "[int...]"), ("i", "int")], "int",
-                               [("print", ("bin", "+", ("bin", "+", ("str", "pick "), V("l")), ("bin", "+", ("str", " "), V("i")))),
-                                ("return", ("index", V("l"), ("bin", "%", V("i"), lit(2))))]), None, ())
+                               [("print", ("bin", "+", ("str", "pick "), V("i"))), ("print", V("l")),
+                                ("return", ("bin", "+", ("index", V("l"), ("bin", "%", ("bin", "*", V("i"), V("i")), lit(2))), lit(0)))]), None, ())
     slen = ("assign", "slen", ("fn", [("s", "str")], "int",
                                [("print", ("bin", "+", ("str", "cat "), V("s"))), ("return", ("method", V("s"), "len", []))]), None, ())
-    msum = ("raw", "msum = fn(mm: map[int, int]) -> int {\n\tprint \"msum \" + mm.len()\n\treturn mm.len()\n}")
+    msum = ("assign", "msum", ("fn", [("mm", "map[int, int]")], "int",
+                               [("print", ("bin", "+", ("str", "msum "), ("method", V("mm"), "len", []))),
+                                ("return", ("method", V("mm"), "len", []))]), None, ())
     cls = ("class", "K", [("base", "int")], ([("b", "int")], [("setfield", V("self"), "base", V("b"))]),
            [("m", [("a", "int"), ("b", "int")], "int",
              [("print", ("bin", "+", ("bin", "+", ("str", "m "), V("a")), ("bin", "+", ("str", " "), V("b")))),
               ("return", ("bin", "+", ("bin", "-", V("a"), V("b")), ("field", V("self"), "base")))])])
-    obj = ("assign", "obj", ("new", "K", [lit(10)]), None, ())
-    return [t, r, bv, ov, f2, f3, f4, sum3, pick, slen, msum, cls, obj]
+    ko = ("assign", "ko", ("new", "K", [lit(10)]), None, ())
+    need = {"t": [t], "r": [t, r], "bt": [bv], "bf": [bv], "o": [ov], "on": [ov], "f2": [f2], "f3": [f3], "f4": [f4],
+            "sum3": [sum3], "idx": [pick], "+s": [slen], "msum": [msum], "m": [cls, ko]}
+    out = []
+    for k in (used if used is not None else need):
+        for d in need.get(k, []):
+            if d not in out:
+                out.append(d)
+    return out
 
 
 def build(tree, ctx):
@@ -243,36 +278,11 @@ def build(tree, ctx):
         body = [("assign", "cnt", lit(0), None, ()),
                 ("while", ("bin", "&&", ("bin", "<", V("cnt"), lit(2)), cond),
                  [("assign", "cnt", ("bin", "+", V("cnt"), lit(1)), None, ())]), ("print", V("cnt"))]
-    return prelude() + body + [("print", ("str", "end"))]
-
-
-# the reference interpreter needs two small extensions for this check: map literals and msum (a `raw` function)
-class Interp15(refint.Interp):
-    def ev(self, e):
-        if e[0] == "maplit":
-            m = refint.MMap()
-            for k, v in e[1]:
-                kk = self.ev(k)
-                vv = self.ev(v)
-                m.d[kk] = vv
-            return m
-        if e[0] == "call" and e[1] == ("var", "msum"):
-            m = self.ev(e[2][0])
-            self.out.append(f"msum {len(m.d)}")
-            return len(m.d)
-        return refint.Interp.ev(self, e)
-
-
-_orig_pe = refint.pe
-
-
-def pe15(e):
-    if e[0] == "maplit":
-        return "map[int, int]{" + ", ".join(f"{refint.pe(k)}: {refint.pe(v)}" for k, v in e[1]) + "}"
-    return _orig_pe(e)
-
-
-refint.pe = pe15
+    used = set(_ops(tree))
+    if ctx == "arg":
+        used |= {"f2", "t"}
+    order = ["t", "r", "bt", "bf", "o", "on", "f2", "f3", "f4", "sum3", "idx", "+s", "msum", "m"]
+    return prelude([k for k in order if k in used]) + body + [("print", ("str", "end"))]
 
 
 class C15(Check):
@@ -295,13 +305,17 @@ class C15(Check):
         memo = {}
         r2 = [n for t in ("I", "B") for n in trees_rule1(2, t, memo) if tdepth(n) == 2]
         r3 = [n for t in ("I", "B") for n in trees_rule1(3, t, memo) if tdepth(n) == 3]
-        ls = [("L0-depth1-all-contexts", L0), ("L1-depth2-rule1", [(n, "print") for n in r2]),
-              ("L2-depth2-full-binary", [(n, "print") for n in full2])]
+        sm = {}
+        s3 = [n for t in ("I", "B") for n in trees_spine(3, t, sm) if tdepth(n) == 3]
+        ls = [("L0-depth1-all-contexts", L0), ("L1-depth2-rule1", [(n, "print") for n in r2])]
         if tier == "quick":
-            ls.append(("L3-depth3-rule1", ((n, "print") for n in r3)))
+            ls.append(("L2q-depth2-full-roots(- && || or !)", [(n, "print") for n in full2 if n[0] in ("-", "&&", "||", "or", "!")]))
+            ls.append(("L3q-depth3-spines", [(n, "print") for n in s3]))
         else:
-            ls.append(("L3-depth3-rule1", ((n, c) for n in r3 for c in ("print", "if", "return"))))
-            ls.append(("L4-depth4-rule1", ((n, "print") for t in ("I", "B") for n in trees_rule1(4, t, memo) if tdepth(n) == 4)))
+            ls.append(("L2-depth2-full-binary", [(n, c) for n in full2 for c in ("print", "if")]))
+            ls.append(("L3q-depth3-spines", [(n, c) for n in s3 for c in ("print", "return", "while")]))
+            ls.append(("L4-depth4-spines", ((n, "print") for t in ("I", "B") for n in trees_spine(4, t, sm) if tdepth(n) == 4)))
+            ls.append(("L3-depth3-rule1", ((n, "print") for n in r3)))
         return ls
 
     def describe(self, case):
@@ -313,7 +327,7 @@ class C15(Check):
         if ast is None:
             return {"outcome": "inexpressible", "nontrivial": False}
         src = refint.program(ast)
-        it = Interp15()
+        it = refint.Interp()
         ok, failure = it.run(ast)
         res = driver.run_ms(src)
         lines = res.lines()
